@@ -139,6 +139,19 @@ def _raw(spec):
     elif kind == 'unit_rows':
         a = rng.standard_normal(shape)
         a = a / np.linalg.norm(a, axis=-1, keepdims=True)
+    elif kind in ('cconcentrated', 'rconcentrated'):
+        # (..., N, D) observations around one direction per leading index:
+        # v + noise * standard normal (concentrations from ~1 to > 500)
+        *lead, N, D = shape
+        noise = float(spec.get('noise', 0.1))
+        cplx = kind == 'cconcentrated'
+        a = np.empty(shape, dtype=complex if cplx else float)
+        for idx in np.ndindex(*lead):
+            v = _cnormal(rng, (D,)) if cplx else rng.standard_normal(D)
+            v = v / np.linalg.norm(v)
+            e = _cnormal(rng, (N, D)) if cplx else rng.standard_normal((N, D))
+            ph = np.exp(1j * rng.uniform(0, 6.28, size=(N, 1))) if cplx else 1.0
+            a[idx] = (v + noise * e) * ph
     elif kind == 'basis_rows':
         # (N, D) complex rows cycling through a random unitary basis
         N, D = shape
